@@ -1,5 +1,5 @@
 From Coq Require Import Extraction ExtrOcamlBasic.
-From Rumqtt Require Import Client.State4 Client.State4Orig Client.Run4 Client.State5.
+From Rumqtt Require Import Client.State4 Client.State4Orig Client.Run4 Client.State5 Client.State5Orig.
 Extraction Language OCaml.
 Definition v4_init := State4.init.
 Definition v4_step := State4.step.
@@ -12,7 +12,8 @@ Definition v4_inflight := State4.inflight.
 Definition v4_collision := State4.collision.
 Definition v5_init := State5.init5.
 Definition v5_step := State5.step5.
+Definition v5_step_orig := State5Orig.Orig.step5.
 Definition v5_drain := State5.drain5.
 Definition v5_inflight := State5.s5_inflight.
 Definition v5_collision := State5.s5_collision.
-Extraction "client_model.ml" v4_init v4_step v4_step_orig v4_k18 v4_k19 v4_contract v4_drain v4_inflight v4_collision v5_init v5_step v5_drain v5_inflight v5_collision.
+Extraction "client_model.ml" v4_init v4_step v4_step_orig v4_k18 v4_k19 v4_contract v4_drain v4_inflight v4_collision v5_init v5_step v5_step_orig v5_drain v5_inflight v5_collision.
